@@ -43,7 +43,14 @@ namespace impl {
 		return p;
 	}
 
-	inline void create_mutex(pthread_mutex_t *m,bool pshared = false)
+	#if defined(_POSIX_C_SOURCE) && _POSIX_C_SOURCE >= 200809L
+	#define CPPCMS_HAS_ROBUST_MUTEX
+	#endif
+
+	///
+	/// robust: the mutex can be taken over when the process that holds it dies; lock it with lock_robust_mutex
+	///
+	inline void create_mutex(pthread_mutex_t *m,bool pshared = false,bool robust = false)
 	{
 		if(!pshared) {
 			pthread_mutex_init(m,0);
@@ -55,6 +62,10 @@ namespace impl {
 			try {
 				int res;
 				res = pthread_mutexattr_setpshared(&attr,PTHREAD_PROCESS_SHARED);
+				#ifdef CPPCMS_HAS_ROBUST_MUTEX
+				if(res==0 && robust)
+					res = pthread_mutexattr_setrobust(&attr,PTHREAD_MUTEX_ROBUST);
+				#endif
 				if(res==0)
 					res = pthread_mutex_init(m,&attr);
 				if(res < 0)
@@ -74,6 +85,21 @@ namespace impl {
 	inline void destroy_mutex(pthread_mutex_t *m)
 	{
 		pthread_mutex_destroy(m);
+	}
+
+	///
+	/// Lock a mutex that may have been created as robust one: when its owner died the mutex is taken over,
+	/// what the owner protected has to be usable in whatever state it was left
+	///
+	inline void lock_robust_mutex(pthread_mutex_t *m)
+	{
+		int res = pthread_mutex_lock(m);
+		#ifdef CPPCMS_HAS_ROBUST_MUTEX
+		if(res == EOWNERDEAD)
+			pthread_mutex_consistent(m);
+		#else
+		(void)(res);
+		#endif
 	}
 	
 	inline void create_rwlock(pthread_rwlock_t *m,bool pshared=false)
